@@ -2,6 +2,7 @@ package gcx
 
 import (
 	"fmt"
+	"os"
 
 	"verifharness/hx"
 )
@@ -52,10 +53,10 @@ func (o *C12Oracle) After(r *Runner, kind string, op Op, started bool) {
 		return
 	}
 	b, a := o.before, r.Snap()
-	evicted := map[string]bool{} // roots whose gc entry the run removed
+	evicted := map[string]bool{} // roots of the gc entries the run removed (a root can have several entries)
 	evictedUnregistered := false
-	for root := range b.GC {
-		if !a.GC[root] {
+	for key, root := range b.GC {
+		if _, still := a.GC[key]; !still {
 			evicted[root] = true
 			if !b.Roots[root] {
 				evictedUnregistered = true
@@ -68,6 +69,9 @@ func (o *C12Oracle) After(r *Runner, kind string, op Op, started bool) {
 		}
 		others := r.filesWith(addr, func(root string) bool { return b.Roots[root] && !evicted[root] })
 		if len(others) > 0 {
+			if os.Getenv("GCX_DEBUG") != "" {
+				fmt.Fprintf(os.Stderr, "chunk %x: others %x evicted %x count-before %d roots-before %x\n", addr, others, keysOf(evicted), b.Count[addr], keysOf(b.Roots))
+			}
 			if evictedUnregistered {
 				return "chunk-of-registered-file:evicted-file-unregistered"
 			}
@@ -137,8 +141,8 @@ func (o *C16Oracle) After(r *Runner, kind string, op Op, ok bool) {
 		gone[root] = true
 		goneUnregistered = !b.Roots[root]
 	} else {
-		for root := range b.GC {
-			if !a.GC[root] {
+		for key, root := range b.GC {
+			if _, still := a.GC[key]; !still {
 				gone[root] = true
 				if !b.Roots[root] {
 					goneUnregistered = true
@@ -214,4 +218,12 @@ func (o *C16Oracle) After(r *Runner, kind string, op Op, ok bool) {
 			viol("orphan:"+kind+":"+class, fmt.Sprintf("chunk %x of the deleted file %x is used by no known file, has no pin and is still stored", c, root), "stored", "removed")
 		}
 	}
+}
+
+func keysOf(m map[string]bool) []string {
+	var l []string
+	for k := range m {
+		l = append(l, k)
+	}
+	return l
 }
